@@ -172,6 +172,9 @@ def check(ctx):
     # reac.rateexpr(grain) itself, nothing catches NotImplementedError and substitutes a rate (shared with C06.R1)
     from .c06 import _r1 as assignment_rule
     ctx.absorb(assignment_rule, "R9")
+    # occurrences count: no set / dict keyed by the species stands between a reactant list and the terms built from it
+    from ..multiplicity import rule as multiplicity_rule
+    multiplicity_rule(ctx, "R10", ['grain'], "the surface rate coefficient")
 
 
 def _r8(ctx, pkg):
